@@ -147,3 +147,24 @@ CHECKS["C10"] = dict(
     probes=["coalesce_both_sides", "reused_free_chunk", "grow_in_place", "extend_top", "move_realloc", "shrink_split", "brk_lowered", "pool_exhausted"],
     assumptions=["at most 60 live heap blocks (the heap asserts < 100)", "requests stay within the arena (the heap has no upper bound check)", "pool element size >= sizeof(void*)"],
 )
+
+CHECKS["C01"] = dict(
+    engine="E6-hist",
+    level="exploration",
+    mode="asan",
+    harness=["harness/C01_lists.cpp"],
+    igris=["igris/container/dlist.cpp"],
+    runs=dict(quick=60000, thorough=2000000),
+    design_ref="DESIGN.md 4.6, 5 (C01)",
+    technique="deterministic simulation of client tasks applying list operations (including node and list death) to the real intrusive lists, refinement against reference sequences after every step, every node its own heap object under ASan",
+    level_text="seeded operation histories over 1-12 nodes and 1-4 lists per kind (C dlist, C++ dlist_node/dlist_base/dlist<>, C/C++ slist, hlist): after every step each list is "
+               "traversed forward and backward through the public iterators/macros and compared with a reference sequence, together with size/empty/membership queries, back-pointer "
+               "consistency of every linked node, self-linkedness of unlinked nodes and harmless second removal. Sampling of histories, not proof",
+    level_note="sequential refinement only (licence (e) of DESIGN.md section 2): no scheduler dimension and no fault dimension beyond node/list death; API contracts are honoured by the generator "
+               "(the C add family and dlist_move_sorted get unlinked nodes, poisoned nodes are re-initialised, hlist_del'ed nodes are re-initialised by the caller)",
+    rule="one run = one seeded op history on one list family. non-trivial = at least two lists were non-empty at once, a move happened and a linked node died "
+         "(slist/hlist: a pop and a removal happened); distinct = distinct hash of the executed op trace",
+    simtime_units="list operations",
+    probes=["self_move", "move_to_neighbour", "single_element_move", "splice_into_nonempty", "splice_from_empty", "destroy_linked_head_neighbour", "second_removal", "reinsert_linked_node", "sorted_insert", "insert_instead"],
+    assumptions=["single caller at a time", "freeing a still-linked C node is caller misuse and is not generated"],
+)
